@@ -31,6 +31,9 @@ func obsJSON(b *Built, o outcome) map[string]any {
 		}
 		return map[string]any{"t": "ns", "seq": seq, "pos": pos}
 	}
+	if v.V == nil {
+		return map[string]any{"t": v.T} // (JSON null is not a TLA+ value)
+	}
 	return map[string]any{"t": v.T, "v": v.V}
 }
 
